@@ -3,6 +3,7 @@ import enum
 import re
 import warnings
 import inspect
+import itertools
 try:
     import annotationlib # py3.14+
 except ImportError:
@@ -627,6 +628,19 @@ def _traverse_path(path, obj):
         else:
             obj = getattr(obj, item)
     return obj
+
+
+def _expand_path(path, sig_dimensions):
+    # Yields `path` (a handle followed by member names) once per element of the arrays of
+    # interfaces it passes through, with the indices inserted after the corresponding names.
+    handle, *names = path
+    paths = [(handle,)]
+    for depth, name in enumerate(names):
+        dimensions = sig_dimensions.get(tuple(names[:depth + 1]), ()) if depth + 1 < len(names) else ()
+        paths = [(*prefix, name, *indices)
+                 for prefix in paths
+                 for indices in itertools.product(*(range(dim) for dim in dimensions))]
+    return paths
 
 
 def _format_shape(shape):
@@ -1454,6 +1468,9 @@ def connect(m, *args, **kwargs):
                 for handle, signature in signatures.items()}
     connections = []
     any_in, any_out = False, False
+    # Dimensions of the signature members seen so far, by path; a port member below an array of
+    # interfaces is connected once per element of that array.
+    sig_dimensions = {}
     # Each iteration of the outer loop is intended to connect several (usually a pair) members
     # to each other, e.g. an out member `[0].a` to an in member `[1].a`. However, because we
     # do not just check signatures for equality (in order to improve diagnostics), it is possible
@@ -1509,6 +1526,7 @@ def connect(m, *args, **kwargs):
                     in_kind.append(((handle, *path_for_handle), member))
             if member.is_signature:
                 sig_kind.append(((handle, *path_for_handle), member))
+                sig_dimensions[path_for_handle] = member.dimensions
         # If there's no path and an error wasn't raised above, we're done!
         if first_path is None:
             break
@@ -1636,8 +1654,10 @@ def connect(m, *args, **kwargs):
                         out_path=(*out_path, index), in_path=(*in_path, index),
                         src_loc_at=src_loc_at + 1)
             assert out_member.dimensions == in_member.dimensions
-            connect_dimensions(out_member.dimensions,
-                out_path=out_path, in_path=in_path, src_loc_at=src_loc_at + 1)
+            for out_elem_path, in_elem_path in zip(_expand_path(out_path, sig_dimensions),
+                                                   _expand_path(in_path, sig_dimensions)):
+                connect_dimensions(out_member.dimensions,
+                    out_path=out_elem_path, in_path=in_elem_path, src_loc_at=src_loc_at + 1)
 
     # If no connections were made, and there were inputs but no outputs in the
     # signatures, issue a diagnostic as this is most likely in error.
